@@ -79,6 +79,7 @@ def run(ctx):
         if model_ok:
             correspond(ctx, "pr", pprogs, presults, impl.coq_prprog, "prun_enc", REQ_PR)
         impl.observer_list_oracle(ctx)
+        impl.flush_observer_oracle(ctx)
 
     if not ok and len(ctx.failures) == before:
         ctx.fail("proof-broken", "theorem closure props/C17.vo no longer builds against the regenerated gen/EventualGen.v:\n"
@@ -127,7 +128,7 @@ class Ids:
         return self.n
 
 
-EV_LETTERS = "NRQFTLXV"
+EV_LETTERS = "NRQFTLXVK"
 
 
 def ev_letter(ch, ids):
@@ -149,6 +150,8 @@ def ev_letter(ch, ids):
         return ["turn"]
     if ch == "L":
         return ["act", ["flush", ids()]]
+    if ch == "K":
+        return ["act", ["flush", ids(), [[ids(), [], False]]]]                        # flush whose callback enqueues work
     raise ValueError(ch)
 
 
@@ -166,7 +169,7 @@ def rand_script(rng, ids, depth):
         elif k < 0.65:
             acts.append(["fire", ids()])
         elif k < 0.9:
-            acts.append(["flush", ids()])
+            acts.append(["flush", ids()] + ([[rand_script(rng, ids, 0)]] if rng.random() < 0.4 else []))
         else:
             acts.append(["enq", [ids(), [], rng.random() < 0.3]])
     return [ids(), acts, rng.random() < 0.3]
@@ -175,7 +178,7 @@ def rand_script(rng, ids, depth):
 def ev_programs(ctx):
     out = []
     maxlen = ctx.n(4, 5)
-    letters = EV_LETTERS if ctx.tier == "thorough" else "NRQFTLX"
+    letters = EV_LETTERS if ctx.tier == "thorough" else "NRQFTLK"
     for n in range(1, maxlen + 1):
         for w in itertools.product(letters, repeat=n):
             if "T" not in w and n > 2:
@@ -189,7 +192,7 @@ def ev_programs(ctx):
             if k < 0.35:
                 prog.append(["turn"])
             elif k < 0.5:
-                prog.append(["act", ["flush", ids()]])
+                prog.append(["act", ["flush", ids()] + ([[rand_script(ctx.rng, ids, 1)]] if ctx.rng.random() < 0.5 else [])])
             elif k < 0.58:
                 prog.append(["act", ["fire", ids()]])
             else:
